@@ -99,6 +99,18 @@ OtherTypeCases ==
         TupV(<<IntV(2), StrV(<<105, 110, 33>>)>>))
      : c \in {"ifset-x", "ifset-x-value", "match-ty-x", "match-ty-x-value", "whileset", "for-x"}}
 
+\* a type arm's binder is gone after the arm however the arm is left (break, continue), also when the match is the BARE body
+\* of a loop (no braces, so no block of its own around it): the outer x is the outer x afterwards
+BareLoopCases ==
+  {Case("bare-loop-match-" \o how,
+        <<Set("x", H(10)), Set("k", MutE(WInt, I(0)))>> \o
+        (IF how = "break"
+         THEN <<[k |-> "loop", bare |-> TRUE, b |-> Match(Hide(WMulti(<<WInt, WStr>>), I(3)), <<ArmTy("x", WInt, Block(<<Break>>)), ArmOther(Block(<<Break>>))>>)]>>
+         ELSE <<[k |-> "while", bare |-> TRUE, c |-> Bin("<", Asg("+=", V("k"), I(1)), I(3)),
+                 b |-> Match(Hide(WMulti(<<WInt, WStr>>), I(3)), <<ArmTy("x", WInt, Block(<<ContinueS>>)), ArmOther(Block(<<Unit>>))>>)]>>)
+        \o <<Set("g", FnE(<<>>, WInt, <<Ret(V("x"))>>)), TupE(<<V("x"), CallE(V("g"), <<>>)>>)>>,
+        TupV(<<IntV(10), IntV(10)>>)) : how \in {"break", "continue"}}
+
 \* blocks whose ONLY statement is a declaration of x with ANOTHER type (the outer x is an int and is used as an int
 \* afterwards): a block is a scope however short it is
 Str == S(<<105, 110>>)
@@ -585,7 +597,7 @@ ModCases == {
 }
 
 \* int / bool / struct values cannot share one TLC set: keep the suites in separate sequences
-CaseSeq == SetToSeq(ShadowCases) \o SetToSeq(OtherTypeCases) \o SetToSeq(SoloCases) \o SetToSeq(LateCases) \o SetToSeq(RedeclCases) \o SetToSeq(CapturedCases) \o SetToSeq(CaptureCases) \o SetToSeq(DeepCases) \o SetToSeq(RecCases) \o SetToSeq(NoisyCases) \o <<HelperCase>> \o SetToSeq(HelperOperandCases) \o SetToSeq(ModCases)
+CaseSeq == SetToSeq(ShadowCases) \o SetToSeq(OtherTypeCases) \o SetToSeq(BareLoopCases) \o SetToSeq(SoloCases) \o SetToSeq(LateCases) \o SetToSeq(RedeclCases) \o SetToSeq(CapturedCases) \o SetToSeq(CaptureCases) \o SetToSeq(DeepCases) \o SetToSeq(RecCases) \o SetToSeq(NoisyCases) \o <<HelperCase>> \o SetToSeq(HelperOperandCases) \o SetToSeq(ModCases)
 N == Len(CaseSeq)
 Fuel == 3000
 Out(i) == Outcome(Run(CaseSeq[i].prog, Fuel))
